@@ -1,11 +1,13 @@
 """Runs batch-free P-lang programs through BOTH engines of the build under test - asyncio.run(... fn.asyncio() ...)
 and the plain asynq call fn() - and compares each outcome with the one AsyncioBridge.tla prescribes.
 
-case = {"id": int, "prog": P-lang program, "seed": int, "exp": prescribed outcome {"g","n","xs"}}
+case = {"id": int, "prog": P-lang program, "seed": int, "pre": asynq-mode history before the asyncio run, "exp": prescribed outcome}
 Every task of the program is realised by one of several flavours chosen from the seed: a plain @asynq() function, an
 @asynq() method, an @async_proxy() function returning the task of an @asynq() function, an @async_proxy() function
 returning a ConstFuture (tasks that only return), an @asynq(asyncio_fn=...) function with an explicit coroutine that
-yields to the loop a few times before finishing (tasks without yields; this varies the completion order).
+yields to the loop a few times before finishing (tasks without yields; this varies the completion order), a
+@deduplicate() function or method, an @aretry() or @alru_cache() wrapped function.  "pre" (AsyncioBridge.tla, Before):
+what asynq-mode code did on this thread with the deduplicated functions before the asyncio run (see Run.before).
 The generated bodies log (t, k) when segment k begins and (t, 0) when the body is left; in asyncio mode every segment
 also checks is_asyncio_mode() and that a plain synchronous call of an @asynq() function raises RuntimeError.
 If C15_TRACE_DIR is set, the step order of every asyncio run is written there for validation against the spec."""
@@ -24,6 +26,7 @@ os.dup2(devnull.fileno(), 2)
 import asynq
 from asynq.asynq_to_async import is_asyncio_mode
 from asynq.futures import ConstFuture
+from asynq.tools import alru_cache, aretry, deduplicate
 
 
 def V(g, n=0, xs=()):
@@ -112,6 +115,33 @@ class Holder(object):
     def body(self):
         return (yield from self.run.interp(self.t))
 
+    @deduplicate()
+    @asynq.asynq()
+    def dbody(self):
+        return (yield from self.run.interp(self.t))
+
+
+@deduplicate()
+@asynq.asynq()
+def dedup_fn(run, t):
+    return (yield from run.interp(t))
+
+
+class NeverRaised(Exception):
+    pass
+
+
+@aretry(NeverRaised, max_tries=2, sleep=0)
+@asynq.asynq()
+def retry_fn(run, t):
+    return (yield from run.interp(t))
+
+
+@alru_cache(maxsize=64, key_fn=lambda args, kwargs: (args[0].uid, args[0].epoch, args[1]))
+@asynq.asynq()
+def lru_fn(run, t):
+    return (yield from run.interp(t))
+
 
 @asynq.async_proxy()
 def proxy_fn(run, t):
@@ -142,9 +172,16 @@ def aio_fn(run, t):
 
 
 class Run(object):
+    serial = [0]
+
     def __init__(self, prog, seed, engine):
+        Run.serial[0] += 1
+        self.uid = Run.serial[0]          # never reused (id() of a dead Run may be)
         self.prog = prog
         self.engine = engine
+        self.recording = True
+        self.epoch = 0
+        self.leftover = []
         self.trace = []
         self.notes = []
         self.used_aio = 0
@@ -156,18 +193,62 @@ class Run(object):
         self.holders = {}
         for t in range(1, n + 1):
             segs = prog["tasks"][t - 1]["segs"]
-            opts = ["fn", "fn", "method", "proxy"]
+            opts = ["fn", "method", "proxy", "dedup", "dedupm", "retry", "lru"]
             if len(segs) == 1 and t != root:
                 opts += ["aio", "aio"]
                 if segs[0]["term"]["k"] == "return":
                     opts.append("const")
             self.flavour[t] = rng.choice(opts) if seed else "fn"
             self.delay[t] = rng.randint(0, 3)
-            if self.flavour[t] == "method":
+            if self.flavour[t] in ("method", "dedupm"):
                 self.holders[t] = Holder(self, t)
 
     def ev(self, t, k):
-        self.trace.append([t, k])
+        if self.recording:
+            self.trace.append([t, k])
+
+    def before(self, pre):
+        """asynq-mode history on this thread before the asyncio run, for every task realised through @deduplicate():
+        created = a task for the same function and arguments is created and never run (it stays registered);
+        computed = one is run to completion; other = one for different arguments is created and never run"""
+        if pre == "none":
+            return
+        self.recording = False
+        try:
+            for t, f in sorted(self.flavour.items()):
+                if f not in ("dedup", "dedupm"):
+                    continue
+                if pre == "created":
+                    self.leftover.append(dedup_fn.asynq(self, t) if f == "dedup" else self.holders[t].dbody.asynq())
+                elif pre == "other":
+                    if f == "dedup":
+                        self.leftover.append(dedup_fn.asynq(self, t + 100000))
+                    else:
+                        h = Holder(self, t)
+                        self.leftover.append(h)
+                        self.leftover.append(h.dbody.asynq())
+                elif pre == "computed":
+                    try:
+                        (dedup_fn.asynq(self, t) if f == "dedup" else self.holders[t].dbody.asynq()).value()
+                    except Exception:
+                        pass
+        finally:
+            self.recording = True
+            self.epoch += 1
+            del self.trace[:]
+            del self.notes[:]
+
+    def cleanup(self):
+        for t, f in self.flavour.items():
+            if f == "dedup":
+                dedup_fn.dirty(self, t)
+                dedup_fn.dirty(self, t + 100000)
+            elif f == "dedupm":
+                self.holders[t].dbody.dirty()
+        for x in self.leftover:
+            if isinstance(x, Holder):
+                x.dbody.dirty()
+        del self.leftover[:]
 
     def leaf_result(self, t):
         term = self.prog["tasks"][t - 1]["segs"][0]["term"]
@@ -186,6 +267,14 @@ class Run(object):
             return proxy_fn, (self, t)
         if f == "const":
             return proxy_const, (self, t)
+        if f == "dedup":
+            return dedup_fn, (self, t)
+        if f == "dedupm":
+            return self.holders[t].dbody, ()
+        if f == "retry":
+            return retry_fn, (self, t)
+        if f == "lru":
+            return lru_fn, (self, t)
         return aio_fn, (self, t)
 
     def call_async(self, t):        # what a body writes: child.asynq(...)
@@ -210,6 +299,8 @@ class Run(object):
         raise ValueError("not in the C15 fragment: %r" % g)
 
     def probe(self, t, k):
+        if not self.recording:
+            return
         m = is_asyncio_mode()
         if self.engine == "asyncio":
             if not m:
@@ -262,11 +353,20 @@ def outcome(fn):
         return V("x", vid_of(e)), (None if isinstance(e, VErr) else "%s: %s" % (type(e).__name__, e))
 
 
-def run_asyncio(prog, seed):
+def run_asyncio(prog, seed, pre="none"):
+    asynq.scheduler.reset()
     run = Run(prog, seed, "asyncio")
     root = prog["calls"][0]["root"]
     fn, args = run.target(root)
     res = {}
+    run.before(pre)
+    try:
+        return _run_asyncio(run, fn, args, seed, res)
+    finally:
+        run.cleanup()
+
+
+def _run_asyncio(run, fn, args, seed, res):
     before = is_asyncio_mode()
     if seed % 2 == 0:
         async def main():
@@ -308,6 +408,7 @@ def run_asynq(prog, seed):
     root = prog["calls"][0]["root"]
     fn, args = run.target(root)
     out, note = outcome(lambda: fn(*args))
+    run.cleanup()
     return {"out": out, "note": note, "notes": run.notes}
 
 
@@ -323,8 +424,9 @@ def main():
     for i, c in enumerate(cases):
         exp = norm(c["exp"])
         try:
-            ra = run_asyncio(c["prog"], c["seed"])
-            rs = run_asynq(c["prog"], c["seed"])
+            pre = c.get("pre", "none")
+            ra = run_asyncio(c["prog"], c["seed"], pre)
+            rs = run_asynq(c["prog"], c["seed"]) if pre == "none" else {"out": exp, "note": "not run", "notes": []}
         except BaseException as e:
             out.append({"i": i, "got": "harness exception %s: %s" % (type(e).__name__, e), "diff": ["harness"]})
             continue
